@@ -83,6 +83,7 @@ func RunRule(c *Ctx, r *Rule) (obs []core.Obligation, internal string) {
 			obs = s.Obs
 		}
 	}()
+	curCtx = c
 	r.Run(c, s)
 	return s.Obs, ""
 }
